@@ -53,11 +53,18 @@ def run_property(pid: str, tier: str, write_evidence=True, quiet=False) -> int:
             for line in repo.normalized:
                 print("NORMALIZED", line)
         ctx = Ctx(pid, repo, tier)
-        mod.run(ctx)
+        aborted = False
+        try:
+            mod.run(ctx)
+        except AnchorError as e:
+            # an undecidable shape met outside a section: what was decided before it still counts (a violation found
+            # earlier is reported, with this as a note); with no violation the run is undecided
+            ctx.anchor_errors.append(e)
+            aborted = True
         if tier == "thorough" and hasattr(mod, "run_thorough"):
             mod.run_thorough(ctx)
         n = len(ctx.obligations)
-        if n < getattr(mod, "MIN_OBLIGATIONS", 1):
+        if n < getattr(mod, "MIN_OBLIGATIONS", 1) and not aborted:
             raise AnchorError(
                 f"{pid}.obligations",
                 f"only {n} obligations were generated, at least {mod.MIN_OBLIGATIONS} were confirmed by hand "
